@@ -6,6 +6,8 @@ boundary-value executions on the real parser + serde."""
 
 from __future__ import annotations
 
+import itertools
+
 import sys
 
 from .. import common, refcodec, shapes
@@ -500,6 +502,74 @@ def zero_width_worker(chunk):
     return S
 
 
+HIST_SCHEMA = [
+    ("struct", "A", (("p", 0, shapes.U(3), None, None), ("q", 1, ("arr", shapes.I(5), 2), None, None), ("s", 2, ("str",), None, None))),
+    ("struct", "B", (("x", 0, shapes.U(8), None, None), ("y", 1, shapes.I(16), None, None))),
+]
+HIST_VALUES = {"A": {"p": 5, "q": [-3, 7], "s": "hi"}, "B": {"x": 1, "y": -2}}
+HIST_OPS = ["enc:A", "enc:B", "enc-missing-member:A", "enc-wrong-type:B", "enc-short-array:A", "dec:A", "dec:B", "dec-truncated:A", "dec-truncated:B"]
+
+
+def run_codec_histories(S, prop, tier):
+    """Every sequence of codec calls (length <= 3, thorough 4) in ONE process, failing calls included: a call that
+    raises part-way must leave nothing behind that changes what a later call returns (fork-snapshot exploration)."""
+    from fcp.parser import get_fcp_from_string
+    from fcp import serde
+    from fcp.error import Logger
+    from ..common import fork_histories
+
+    text = print_schema(HIST_SCHEMA)
+    env = refcodec.Env(HIST_SCHEMA)
+    fcp = get_fcp_from_string(text, Logger({})).unwrap()
+    ref = {n: refcodec.encode(env, n, v) for n, v in HIST_VALUES.items()}
+
+    def apply_op(op, hist):
+        kind, name = op.split(":")
+        v = HIST_VALUES[name]
+        try:
+            if kind == "enc":
+                return {"bytes": bytes(serde.encode(fcp, name, v))}
+            if kind == "enc-missing-member":
+                return {"returned": bytes(serde.encode(fcp, name, {k: x for k, x in list(v.items())[:-1]}))}
+            if kind == "enc-wrong-type":
+                return {"returned": bytes(serde.encode(fcp, name, dict(v, y="text")))}
+            if kind == "enc-short-array":
+                return {"returned": bytes(serde.encode(fcp, name, dict(v, q=[1])))}
+            if kind == "dec":
+                return {"value": serde.decode(fcp, name, bytearray(ref[name]))}
+            if kind == "dec-truncated":
+                return {"returned": serde.decode(fcp, name, bytearray(ref[name][:-1]))}
+        except Exception as e:  # noqa
+            return {"raised": type(e).__name__}
+        raise AssertionError(op)
+
+    depth = 3 if tier == "quick" else 4
+    for hist, o in fork_histories(HIST_OPS, depth, apply_op):
+        S.count("states")
+        S.count("transitions")
+        S.count("executions")
+        S.count("codec_histories")
+        S.add("nontrivial", ("hist", hist))
+        kind, name = hist[-1].split(":")
+        inp = {"text": text, "family": "call-history", "ops": list(hist), "values": HIST_VALUES}
+        if "exception" in o or "harness_error" in o:
+            S.violation(prop + ".history", "%s.history/harness" % prop, inp, actual=o)
+        elif kind == "enc":
+            if o.get("bytes") != ref[name]:
+                S.add("outcomes", "hist-enc-differs")
+                S.violation(prop + ".history", "%s.history/encode-depends-on-earlier-calls/after:%s" % (prop, hist[-2].split(":")[0] if len(hist) > 1 else "-"), inp, expected=ref[name], actual=o)
+            else:
+                S.add("outcomes", "hist-enc-ok")
+        elif kind == "dec":
+            if "value" not in o or not refcodec.same(o["value"], HIST_VALUES[name]):
+                S.add("outcomes", "hist-dec-differs")
+                S.violation(prop + ".history", "%s.history/decode-depends-on-earlier-calls/after:%s" % (prop, hist[-2].split(":")[0] if len(hist) > 1 else "-"), inp, expected=HIST_VALUES[name], actual=o)
+            else:
+                S.add("outcomes", "hist-dec-ok")
+        else:
+            S.add("outcomes", "hist-" + ("raised" if "raised" in o else "returned"))
+
+
 def run(prop, tier):
     common.bind_repo()
     r = Run(prop, tier)
@@ -508,6 +578,17 @@ def run(prop, tier):
         print("HARNESS ERROR: reference codec misses project vectors:", bad[:3])
         return 2
     structs, transitions, bounds = build_space(tier, for_c16=(prop == "C16"))
+    if prop == "C01":
+        # Field ids need not be unique for a schema to be accepted (no check asks for it); whatever order the
+        # codec gives equal ids, decode(encode(v)) has to return v.  (C02 cannot judge these: no canonical order.)
+        dup = []
+        for a, b in itertools.product(shapes.REP6, repeat=2):
+            dup.append(("st", (("g0", 0, a), ("g1", 0, b))))
+            dup.append(("st", (("g0", 1, a), ("g1", 0, shapes.U(3)), ("g2", 1, b))))
+        dup.append(("st", (("g0", 7, shapes.U(8)), ("g1", 7, shapes.I(6)), ("g2", 7, ("str",)), ("g3", 7, ("st", (("a", 0, shapes.U(3)), ("b", 0, shapes.I(5))))))))
+        structs = structs + [d for d in dup if d not in structs]
+        bounds["duplicate_field_id_shapes"] = len(dup)
+        transitions += len(dup)
     r.bounds = bounds
     r.bounds["project_vectors_reproduced_by_reference"] = nvec
     indexed = list(enumerate(structs))
@@ -519,6 +600,9 @@ def run(prop, tier):
     r.stats.c["transitions"] += transitions
     if prop in ("C01", "C02"):
         run_vectors(r.stats, prop)
+    if prop == "C02":
+        run_codec_histories(r.stats, prop, tier)
+        r.bounds["codec_call_history_depth"] = 3 if tier == "quick" else 4
     if prop == "C16":
         for s in pmap(zero_width_worker, [[z] for z in ZERO_WIDTH]):
             r.stats.merge(s)
